@@ -318,6 +318,8 @@ class Stats:
                 self.digests_nontrivial.add(d)
         for s in r.get("states") or []:
             self.states.add(s)
+        if r.get("probe_universe"):
+            self.extra["probe_universe"] = r["probe_universe"]
 
 
 def load_known(prop: str) -> list[dict]:
@@ -332,6 +334,9 @@ def load_known(prop: str) -> list[dict]:
 def write_evidence(prop: str, tier: str, seed: int, coverage: dict, assumptions: list[str], wall_s: float, violations: int) -> str:
     os.makedirs(os.path.join(VERIF, "evidence"), exist_ok=True)
     path = os.path.join(VERIF, "evidence", f"{prop}.json")
+    if os.path.realpath(REPO) != "/repo":
+        # a sensitivity run against a scratch copy must not overwrite the evidence about /repo
+        path = f"/tmp/verif_evidence_{prop}_{os.getpid()}.json"
     ev = {
         "property_id": prop,
         "tier": tier,
